@@ -97,13 +97,56 @@ Proof.
   - rewrite SO. reflexivity.
 Qed.
 
+(** * The filter, decided through the regenerated table, is the specified one *)
+Lemma item_has supers sh c : kind_of c supers <> None -> item_filter supers sh IHas c = Some (get_bit c sh).
+Proof.
+  unfold item_filter. destruct (kind_of c supers) as [kp|]; [|congruence]. intros _. destruct kp; reflexivity.
+Qed.
+
+Lemma efilter_plain supers sh f : filter_covered supers f -> efilter supers sh f = Some (filter_eval f sh).
+Proof.
+  induction f as [|c|g IH|g IHg h IHh|g IHg h IHh|vs]; cbn [efilter filter_eval filter_covered]; intros H.
+  - reflexivity.
+  - apply item_has. exact H.
+  - rewrite (IH H). reflexivity.
+  - destruct H as [H1 H2]. rewrite (IHg H1), (IHh H2). reflexivity.
+  - destruct H as [H1 H2]. rewrite (IHg H1), (IHh H2). reflexivity.
+  - contradiction.
+Qed.
+
+Lemma item_view supers sh ks kp c : kind_of c supers = Some kp -> subset_table ks kp <> None ->
+  item_filter supers sh (item_of_kind ks) c = Some (view_filter (VComp ks c) sh).
+Proof.
+  intros Hk HT. unfold item_filter. rewrite Hk.
+  destruct ks, kp; cbn in HT |- *; try congruence; try reflexivity.
+Qed.
+
+Lemma efilter_views supers subs sh : subset_ok supers subs ->
+  efilter supers sh (FViews subs) = Some (forallb (fun v => view_filter v sh) subs).
+Proof.
+  cbn [efilter]. induction subs as [|v t IH]; intros SO; cbn [fold_right forallb]; [reflexivity|].
+  rewrite IH by (intros x Hx; apply SO; right; exact Hx).
+  pose proof (SO v (or_introl eq_refl)) as Hv. destruct v as [ks c|].
+  - destruct Hv as (kp & Hk & HT). rewrite (item_view supers sh ks kp c Hk HT). reflexivity.
+  - reflexivity.
+Qed.
+
+Theorem efilter_spec supers subs f sh : subset_ok supers subs -> filter_covered supers f ->
+  efilter supers sh (FAnd f (FViews subs)) = Some (filter_eval (query_filter subs f) sh).
+Proof.
+  intros SO FC. change (efilter supers sh (FAnd f (FViews subs))) with (opt_and (efilter supers sh f) (efilter supers sh (FViews subs))).
+  rewrite (efilter_plain supers sh f FC), (efilter_views supers subs sh SO).
+  unfold query_filter. cbn [opt_and filter_eval]. rewrite andb_comm. reflexivity.
+Qed.
+
 (** what a system sees through [Entries] is what [World::entry] shows for the same views *)
 Theorem entries_entry_query_eq w e supers subs f : Inv w ->
-  wf_views (w_n w) supers -> wf_views (w_n w) subs -> subset_ok supers subs ->
+  wf_views (w_n w) supers -> wf_views (w_n w) subs -> subset_ok supers subs -> filter_covered supers f ->
   entries_entry_query w e supers subs f = entry_query w e subs f.
 Proof.
-  intros HI WFp WFs SO. unfold entries_entry_query, entry_query.
+  intros HI WFp WFs SO FC. unfold entries_entry_query, entry_query.
   destruct (get_loc w e) as [[sh r]|] eqn:Eg; [|reflexivity].
+  rewrite (efilter_spec supers subs f sh SO FC).
   destruct (filter_eval (query_filter subs f) sh) eqn:EF; [|reflexivity].
   destruct (find_arch sh (w_archs w)) as [a|] eqn:Hf; [|reflexivity].
   destruct (nth_error (a_rows a) r) as [[id vals]|] eqn:Hrow; [|reflexivity].
